@@ -59,6 +59,11 @@ pub fn shapes() -> Vec<Shape> {
         Shape { name: "mergePatch-nested", class: Class::Finite, make: |d| format!("{}std.length(std.toString(std.mergePatch({{r: v}}, {{r: mk({d})}})))", nest_obj(d)) },
         Shape { name: "format-nested", class: Class::Finite, make: |d| format!("{}std.length(\"%s\" % [v])", nest_arr(d)) },
         Shape { name: "tailstrict-recursion", class: Class::Finite, make: |d| format!("local f(n, acc) = if n == 0 then acc else f(n - 1, acc + 1) tailstrict; f({d}, 0)") },
+        Shape { name: "tailstrict-call-in-if-condition", class: Class::Finite, make: |d| format!("local f(n) = if n == 0 then true else (if f(n - 1) tailstrict then true else false); f({d})") },
+        Shape { name: "tailstrict-call-as-operand", class: Class::Finite, make: |d| format!("local f(n) = if n == 0 then 0 else 1 + f(n - 1) tailstrict; f({d})") },
+        Shape { name: "tailstrict-call-as-argument", class: Class::Finite, make: |d| format!("local g(x) = x, f(n) = if n == 0 then 0 else g(f(n - 1) tailstrict); f({d})") },
+        Shape { name: "tailstrict-call-in-array", class: Class::Finite, make: |d| format!("local f(n) = if n == 0 then 0 else [f(n - 1) tailstrict][0]; f({d})") },
+        Shape { name: "tailstrict-call-in-local", class: Class::Finite, make: |d| format!("local f(n) = if n == 0 then 0 else (local r = f(n - 1) tailstrict; r + 0); f({d})") },
         Shape { name: "comprehension-nesting", class: Class::Finite, make: |d| format!("local f(n) = if n == 0 then [0] else [x for x in f(n - 1)]; f({d})") },
         Shape { name: "self-referential-local", class: Class::SelfDependent, make: |d| format!("local x = {}x{}; x", "(".repeat(d), ")".repeat(d)) },
         Shape { name: "self-referential-field", class: Class::SelfDependent, make: |d| format!("local o = {{a: self.a}}; [o.a, {d}][0]") },
@@ -75,6 +80,8 @@ pub fn shapes() -> Vec<Shape> {
         Shape { name: "infinite-object-growth", class: Class::Infinite, make: |d| format!("local f(o) = f(o + {{a: {d}}}); f({{}})") },
         Shape { name: "infinite-manifest", class: Class::Infinite, make: |d| format!("local o = {{a: o, d: {d}}}; o") },
         Shape { name: "infinite-equals", class: Class::Infinite, make: |d| format!("local o = {{a: o, d: {d}}}; o == o") },
+        Shape { name: "infinite-tailstrict-in-if-condition", class: Class::Infinite, make: |d| format!("local f(x) = if f(x + {d}) tailstrict then 1 else 2; f(1)") },
+        Shape { name: "infinite-tailstrict-as-operand", class: Class::Infinite, make: |d| format!("local f(x) = 1 + f(x + {d}) tailstrict; f(1)") },
         Shape { name: "infinite-toString", class: Class::Infinite, make: |d| format!("local a = [a, {d}]; \"\" + a") },
     ]
 }
@@ -347,6 +354,58 @@ pub fn run(ctx: &Ctx) -> i32 {
     }
     total.extra.insert("self_containing_value_probes".into(), json!(sc.len()));
     total.merge(r);
+    // non-terminating and self-dependent shapes once more, one process each: here a hang (watchdog)
+    // or memory exhaustion is itself the violation
+    let nonterm: Vec<(usize, usize, usize)> = shapes()
+        .iter()
+        .enumerate()
+        .filter(|(_, s)| s.class != Class::Finite)
+        .flat_map(|(i, _)| [(i, 0usize, 50usize), (i, 3, 500), (i, 7, 500)])
+        .collect();
+    let icfg = util::ForkCfg { threads: ctx.threads, mem_bytes: 2 << 30, case_timeout_s: 15, died_signature: "C10/never-stopped".into(), resource_is_violation: true };
+    let mut r = util::par_forked(&icfg, nonterm.len(), |sh| {
+        let mut rep = Report::new();
+        let (si, d, limit) = nonterm[sh.index];
+        let all = shapes();
+        let src = (all[si].make)(d);
+        if !sh.begin_case(0, &|| format!("{} depth {d} limit {limit}: {src}", all[si].name)) {
+            return rep;
+        }
+        rep.evaluations += 1;
+        rep.states += 1;
+        let o = run_small_stack(src.clone(), limit, 1024);
+        rep.outcome(match &o { O::Value(_) => "nonterminating:value", O::StackOverflow => "nonterminating:stack-overflow", O::InfiniteRecursion => "nonterminating:infinite-recursion", O::Other(_) => "nonterminating:other" });
+        if !matches!(o, O::StackOverflow | O::InfiniteRecursion) {
+            rep.violation("C10/non-terminating-program-not-stopped", format!("{} depth {d} limit {limit}: {o:?}", all[si].name), json!({"type":"recursion","shape":all[si].name,"depth":d,"limit":limit,"source":src}));
+        }
+        rep
+    });
+    for v in r.violations.iter_mut() {
+        if v.signature.ends_with("/process-died") {
+            if let Some(sidx) = v.case["shard"].as_u64() {
+                v.signature = format!("C10/never-stopped/{}", shapes()[nonterm[sidx as usize].0].name);
+            }
+        }
+    }
+    total.merge(r);
+    // `tailstrict` on a call that is NOT in tail position only forces the arguments: the frame
+    // threshold must be the one of the same program without the annotation
+    for shape in shapes().iter().filter(|s| s.name.starts_with("tailstrict-call-")) {
+        for d in [5usize, 17, 30] {
+            let with = (shape.make)(d);
+            let without = with.replace(" tailstrict", "");
+            let threshold = |src: &str| (0..200usize).find(|&s| matches!(run_small_stack(src.to_string(), s, 1024), O::Value(_)));
+            let (a, b) = (threshold(&with), threshold(&without));
+            total.evaluations += 2;
+            if a != b {
+                total.violation(
+                    "C10/tailstrict-changes-frame-accounting",
+                    format!("{} depth {d}: smallest sufficient limit {a:?} with `tailstrict`, {b:?} without (the call is not in tail position)", shape.name),
+                    json!({"type":"recursion","shape":shape.name,"depth":d,"limit":a.unwrap_or(0),"source":with}),
+                );
+            }
+        }
+    }
     let (l, d) = grid(quick);
     total.extra.insert("shapes".into(), json!(n));
     total.extra.insert("limits".into(), json!(l.len()));
